@@ -206,6 +206,8 @@ var hostilePages = []string{
 	"http://example.com/2011/05/17/story-2/", "http://example.com/story/alpha_p2.html",
 	"http://example.com/story", "http://example.com/story/", "http://example.com/st", "http://example.com/story/2b", "http://example.com/story/3-alpha",
 	"http://example.com/story/alpha/2.html", "http://example.com/story/alpha/page2.html", "http://example.com/story/b",
+	"http://example.com/caf%C3%A9/article", "http://example.com/a%20b/story?page=2", "http://example.com/caf%C3%A9/article/page/2/", "http://example.com/story/alpha%2Fbeta?page=1",
+	"http://example.com", "http://example.com?page=2",
 }
 
 func hostileHref(r *RNG, n int, u *nurl.URL) string {
